@@ -343,6 +343,26 @@ impl Op {
     }
 }
 
+/// Is the slot discipline of `ops` statically satisfiable (every referenced slot was created earlier)?
+/// Statements count as creating what they always create on any state (INSERT-like: one node).
+pub fn well_formed(ops: &[Op]) -> bool {
+    let (mut n, mut e) = (0usize, 0usize);
+    for op in ops {
+        let (nn, ne) = op.needs();
+        if n < nn || e < ne {
+            return false;
+        }
+        match op {
+            Op::CreateNode(_) | Op::CreateNodeProps | Op::SessionCreateNode | Op::TxCommit => n += 1,
+            Op::Query(q) if *q <= 3 => n += 1,
+            Op::BatchCreate(k) => n += *k as usize,
+            Op::CreateEdge(..) | Op::CreateEdgeProps(..) => e += 1,
+            _ => {}
+        }
+    }
+    true
+}
+
 pub fn hist_text(h: &[Op]) -> Vec<String> {
     h.iter().map(|o| o.text()).collect()
 }
